@@ -2509,7 +2509,7 @@ func (p *Parser) evaluateArguments(typeName string, name string, params []Variab
 		if err != nil {
 			return nil, err
 		}
-		err = p.checkHasValue(expr, argToken)
+		err = p.checkSingleValue(expr, argToken) // An argument is exactly one value (also of a program call, whose arguments are not typed).
 
 		if err != nil {
 			return nil, err
